@@ -157,11 +157,13 @@ func mergeAndPersistInvertedSection(segments []*SegmentBase, dropsIn []*roaring.
 
 		// determines whether to use "1-hit" encoding optimization
 		// when a term appears in only 1 doc, with no loc info,
-		// has freq of 1, and the docNum fits into 31-bits
+		// has freq of 1, and the docNum fits into 31-bits; the norm bits must be
+		// non-zero (the reader's 1-hit discriminator) and fit into 31-bits too
 		use1HitEncoding := func(termCardinality uint64) (bool, uint64, uint64) {
 			if termCardinality == uint64(1) && locEncoder.FinalSize() <= 0 {
 				docNum := uint64(newRoaring.Minimum())
-				if under32Bits(docNum) && docNum == lastDocNum && lastFreq == 1 {
+				if under32Bits(docNum) && docNum == lastDocNum && lastFreq == 1 &&
+					lastNorm != 0 && under32Bits(lastNorm) {
 					return true, docNum, lastNorm
 				}
 			}
